@@ -290,6 +290,15 @@ pub fn check_server_project(ctx: &Ctx, case: u64, schema_files: &[String], via_c
         let scalar_cfg = if scalar_cfg.is_empty() { String::new() } else { format!("      type:\n        scalarTypes:\n{scalar_cfg}") };
         let plugins = if model_plugin { "    plugins:\n      - \"nitrogql:model-plugin\"\n" } else { "" };
         files.push(("graphql.config.yaml".into(), format!("schema: ./schema/*.graphql\ndocuments: ./op.graphql\nextensions:\n  nitrogql:\n{plugins}    generate:\n      schemaOutput: ./out/schema.d.ts\n      serverGraphqlOutput: ./out/server.ts\n{scalar_cfg}")));
+        // every third project is generated twice in the same directory: first from a longer earlier revision of the
+        // schema (one more type), then from the schema under test; the module must be that of the second run alone
+        if case % 3 == 1 && !files.is_empty() {
+            let mut earlier = files.clone();
+            earlier[0].1.push_str("\n\"only in the earlier revision\"\ntype ZzzEarlierRevisionOnly {\n  aRatherLongFieldNameThatMakesTheModuleLonger: Int\n}\n");
+            if cli::write_project(&dir, &earlier).is_ok() {
+                let _ = cli::run_cli(&ctx.cli, &dir, &["generate", "--output-format", "json"], Duration::from_secs(60));
+            }
+        }
         if cli::write_project(&dir, &files).is_ok() {
             let r = cli::run_cli(&ctx.cli, &dir, &["generate", "--output-format", "json"], Duration::from_secs(60));
             if r.status == Some(0) {
